@@ -31,12 +31,14 @@ BOUNDS = {"quick": "2 runs (3 for one cell), 2 workers, preemption bound 1 for 4
 
 SHARED = re.compile(r"_plugin_class_registry|_fixed_plugin_cache|_fixed_level_cache|_run_defaults_cache|cached_plugins")
 WRITE = re.compile(r"(\]|cache|registry)\s*=[^=]|\bdel |\.pop\(|\.update\(|\.setdefault\(|\.clear\(")
+# plugin INSTANCES sit in the shared cache too: functions that assign attributes of a plugin instance (config, run_id, deps, ...)
+PLUGIN_WRITE = re.compile(r"\b(p|plugin|target_plugin|requested_p)\.\w+(\[[^\]]*\])?\s*=[^=]")
 _LINES = {}
 
 
 def shared_lines(mode=False):
     """mode False / "lines": the lines that mention the shared registry / caches; "funcs": every line of every function of
-    context.py that WRITES one of them or publishes plugin instances via _plugins_to_cache (so that a preemption can also fall between a cache update and the statement that
+    context.py that WRITES one of them, publishes plugin instances via _plugins_to_cache, or assigns attributes of a plugin instance (so that a preemption can also fall between a cache update and the statement that
     used to precede it); True / "all": every line of context.py"""
     key = {False: "lines", True: "all"}.get(mode, mode)
     if key not in _LINES:
@@ -51,7 +53,7 @@ def shared_lines(mode=False):
                 if not isinstance(node, ast.FunctionDef) or node.name == "__init__":
                     continue
                 body = lines[node.lineno - 1 : node.end_lineno]
-                if any(SHARED.search(l) and WRITE.search(l) for l in body) or any("_plugins_to_cache(" in l for l in body[1:]):
+                if any(SHARED.search(l) and WRITE.search(l) for l in body) or any("_plugins_to_cache(" in l for l in body[1:]) or any(PLUGIN_WRITE.search(l) for l in body):
                     sel.update(range(node.lineno, node.end_lineno + 1))
         else:
             for i, l in enumerate(lines, 1):
@@ -116,6 +118,7 @@ class Src(strax.Plugin):
         return self.chunk(start=t, end=t + 1000, data=r)
 
 
+@strax.takes_config(strax.Option("n_extra", default=0, type=int, help="read by infer_dtype: a half-configured instance fails"))
 class Mp(strax.Plugin):
     provides = "mp"
     depends_on = ("src",)
@@ -123,7 +126,8 @@ class Mp(strax.Plugin):
     rechunk_on_save = False
     __version__ = "0"
 
-    def infer_dtype(self):  # no class-level dtype: the instance is only usable after fix_dtype()
+    def infer_dtype(self):  # no class-level dtype: the instance is only usable after fix_dtype(), and only when configured
+        assert self.config["n_extra"] == 0
         return g.dt_for("mp")
 
     def compute(self, kk):
